@@ -119,7 +119,7 @@ class InverseLaplaceTransformer(UnilateralInverseTransformer):
         sexpr = Ratfun(expr, s)
 
         if kwargs.get('damped_sin', False):
-            if sexpr.degree == 2:
+            if sexpr.Ddegree == 2 and sexpr.Ndegree <= 2:
                 try:
                     return self.do_damped_sin(sexpr, s, t)
                 except (ValueError, TypeError):
